@@ -150,3 +150,28 @@ ben("c19-nonempty-truthy", ["C19"], [(S3, "            and len(versions) > 0\n",
 ben("c19-get-default", ["C19"], [(S3, '        versions = []\n        if "Versions" in response:\n            versions = response["Versions"]\n', '        versions = response.get("Versions", [])\n')])
 ben("c19-listcomp-filter", ["C19"], [(S3, 'versions = list(filter(lambda v: v["LastModified"] <= self.end_date, versions))', 'versions = [v for v in versions if v["LastModified"] <= self.end_date]')])
 ben("c19-not-versions", ["C19"], [(S3, "        if len(versions) == 0:\n            LOG.info(f\"No versions found", "        if not versions:\n            LOG.info(f\"No versions found")])
+
+# ------------------------------------------------------------------------------------------- C08
+BS = M + "BootstrapElectionModel.py"
+mut("c08-errors-stored-always", "C08", [(BS, "        if self._is_top_level_aggregate(aggregate):\n            self.divided_error_B_1 = divided_error_B_1\n            self.divided_error_B_2 = divided_error_B_2\n",
+                                          "        self.divided_error_B_1 = divided_error_B_1\n        self.divided_error_B_2 = divided_error_B_2\n")], "C08.R1")
+mut("c08-pred-margin-stored-always", "C08", [(BS, "        if self._is_top_level_aggregate(aggregate):\n            lhs_called_contests = kwargs.get(\"lhs_called_contests\", [])\n            rhs_called_contests = kwargs.get(\"rhs_called_contests\", [])\n            called_contests = self._format_called_contests(lhs_called_contests, rhs_called_contests, contests, 1, 0, -1)\n\n            self.aggregate_pred_margin",
+                                               "        self.aggregate_pred_margin = raw_margin_df.pred_margin.values.reshape(-1, 1)\n        if self._is_top_level_aggregate(aggregate):\n            lhs_called_contests = kwargs.get(\"lhs_called_contests\", [])\n            rhs_called_contests = kwargs.get(\"rhs_called_contests\", [])\n            called_contests = self._format_called_contests(lhs_called_contests, rhs_called_contests, contests, 1, 0, -1)\n\n            self.aggregate_pred_margin")], "C08.R1")
+mut("c08-guard-weakened", "C08", [(BS, "        if self._is_top_level_aggregate(aggregate):\n            self.divided_error_B_1 = divided_error_B_1", "        if self._is_top_level_aggregate(aggregate) or not hasattr(self, \"divided_error_B_1\") or True:\n            self.divided_error_B_1 = divided_error_B_1")], "C08.R1")
+mut("c08-losses-unclipped", "C08", [(BS, "potential_losses = ((pred_states - (~lower_states).astype(int)) > 0).astype(int)", "potential_losses = pred_states - (~lower_states).astype(int)")], "C08.R2")
+mut("c08-gains-unclipped", "C08", [(BS, "potential_gains = ((upper_states.astype(int) - pred_states) > 0).astype(int)", "potential_gains = upper_states.astype(int) - pred_states")], "C08.R2")
+mut("c08-losses-all-lower", "C08", [(BS, "        potential_losses = ((pred_states - lower_states) > 0).astype(int)", "        potential_losses = (1 - lower_states).astype(int)")], "C08.R2")
+mut("c08-called-not-zeroed-gains", "C08", [(BS, "            potential_gains[~np.isclose(self.called_contests.flatten(), -1)] = 0\n", "")], "C08.R2")
+mut("c08-called-mask-wrong", "C08", [(BS, "            potential_losses[~np.isclose(self.called_contests.flatten(), -1)] = 0", "            potential_losses[np.isclose(self.called_contests.flatten(), 1)] = 0")], "C08.R2")
+mut("c08-stop-forces-all", "C08", [(BS, "            potential_losses[pred_states.astype(bool) & self.stop_model_call.flatten()] = 1", "            potential_losses[self.stop_model_call.flatten()] = 1")], "C08.R2")
+mut("c08-upper-minus", "C08", [(BS, "interval_upper = aggregate_dem_vals_pred + np.sum(", "interval_upper = aggregate_dem_vals_pred - np.sum(")], "C08.R3")
+mut("c08-base-not-added-lower", "C08", [(BS, "agg_lower = round(interval_lower + base_to_add, 2)", "agg_lower = round(interval_lower, 2)")], "C08.R3")
+mut("c08-weights-unsorted", "C08", [(BS, "nat_sum_data_dict_sorted = sorted(nat_sum_data_dict.items())", "nat_sum_data_dict_sorted = list(nat_sum_data_dict.items())")], "C08.R5")
+mut("c08-pred-ge-zero", "C08", [(BS, "            aggregate_dem_probs_total = self.aggregate_pred_margin > 0", "            aggregate_dem_probs_total = self.aggregate_pred_margin >= 0")], "C08.R5")
+mut("c08-length-check-gone", "C08", [(BS, "        if len(nat_sum_data_dict) != self.divided_error_B_1.shape[0]:\n            raise BootstrapElectionModelException(", "        if len(nat_sum_data_dict) > 10**6:\n            raise BootstrapElectionModelException(")], "C08.R4")
+mut("c08-client-first-alpha", "C08", [(CL, "        for alpha in alphas:\n            nat_sum_estimates = self.model.get_national_summary_estimates(nat_sum_data_dict, base_to_add, alpha)", "        for alpha in alphas[:1]:\n            nat_sum_estimates = self.model.get_national_summary_estimates(nat_sum_data_dict, base_to_add, alpha)")], "C08.R6")
+mut("c08-client-base-dropped", "C08", [(CL, "self.model.get_national_summary_estimates(nat_sum_data_dict, base_to_add, alpha)", "self.model.get_national_summary_estimates(nat_sum_data_dict, 0, alpha)")], "C08.R6")
+mut("c08-columns-swapped", "C08", [(D + "ModelResults.py", '            df[f"lower_{alpha}"] = [data["margin"][1]]\n            df[f"upper_{alpha}"] = [data["margin"][2]]', '            df[f"lower_{alpha}"] = [data["margin"][2]]\n            df[f"upper_{alpha}"] = [data["margin"][1]]')], "C08.R6")
+ben("c08-clip-instead", ["C08"], [(BS, "potential_losses = ((pred_states - (~lower_states).astype(int)) > 0).astype(int)", "potential_losses = (pred_states.astype(bool) & lower_states).astype(int)")])
+ben("c08-local-rename", ["C08"], [(BS, "        nat_sum_data_dict_sorted = sorted(nat_sum_data_dict.items())\n        nat_sum_data_dict_sorted_vals = np.asarray([x[1] for x in nat_sum_data_dict_sorted]).reshape(-1, 1)",
+                                    "        weights_by_contest = sorted(nat_sum_data_dict.items())\n        nat_sum_data_dict_sorted_vals = np.asarray([x[1] for x in weights_by_contest]).reshape(-1, 1)")])
